@@ -308,19 +308,21 @@ type failure struct {
 }
 
 var (
-	evals    int
-	byPart   = map[string]int{}
-	seen     = map[uint64]bool{}
-	trivial  int
-	fails    []failure
-	failCnt  = map[string]int{}
-	failKept = map[string]int{}
-	samples  []interface{}
-	sampled  = map[string]bool{}
+	evals     int
+	byPart    = map[string]int{}
+	seen      = map[uint64]bool{}
+	trivial   int
+	fails     []failure
+	failCnt   = map[string]int{}
+	failTotal int
+	failKept  = map[string]int{}
+	samples   []interface{}
+	sampled   = map[string]bool{}
 )
 
 func fail(key, sub string, input interface{}, what string) {
 	failCnt[key]++
+	failTotal++
 	if failKept[key+"/"+sub]++; failKept[key+"/"+sub] <= 1 && failKept[key] < 3 {
 		failKept[key]++
 		fails = append(fails, failure{key, input, what})
@@ -941,12 +943,13 @@ func embRRun(part string, lay []kv, decoded, mut map[string]interface{}, what st
 	doc := render(lay)
 	in := fmt.Sprintf("document %q, then %s", doc, what)
 	typ := reflect.TypeOf(EmbR{})
+	before := failTotal
 	text, cur, ok := embCore(part, typ, doc, lay, decoded, mut, in)
 	if len(samples) < 12 && ok && len(lay) == 9 && strings.HasPrefix(what, "set every known field to its zero") && !twoStep {
 		samples = append(samples, map[string]string{"probe": part, "document": doc, "then": what, "marshalled": text})
 	}
-	if !ok || !twoStep || text == "" {
-		return
+	if !ok || !twoStep || text == "" || failTotal != before {
+		return // (a first step that already failed is reported once, not again through its consequences)
 	}
 	// second step: what was written is read into a fresh struct, every known field is zeroed, marshalled again:
 	// the unknown fields and the required one are all that may be left (and the int/uint/bool zeros)
@@ -1074,7 +1077,6 @@ func main() {
 	enc.SetEscapeHTML(false)
 	enc.Encode(out)
 }
-
 
 func zeroMayBeWritten(f reflect.Value) bool {
 	switch f.Kind() {
